@@ -6,10 +6,13 @@ ROOT = os.path.dirname(os.path.dirname(os.path.abspath(__file__)))
 pid = sys.argv[1]
 extra = [a for a in sys.argv[2:] if not a.startswith('--')]
 wt = os.environ.get("SEED_WT_PREFIX", "/tmp/wt_") + pid
+# SEED_OFFSET=<k>: mutants/<n> of a later round become seeded/<pid>-<n+k> (earlier rounds keep their numbers)
+off = int(os.environ.get("SEED_OFFSET", "0"))
 for n in ('1', '2', '3', '4', '5', '6'):
     src = os.path.join(wt, 'mutants', n)
     if not os.path.isdir(src):
         continue
+    n = str(int(n) + off)
     dst = os.path.join(ROOT, 'seeded', '%s-%s' % (pid, n))
     os.makedirs(dst, exist_ok=True)
     for f in ('patch.diff', 'demo.py', 'notes.md'):
